@@ -202,8 +202,18 @@ def build() -> Check:
             elif nm not in ALLOW:
                 raise AnalysisError(f"TimestampConverter.{m}: conversion call `{ast.unparse(c)[:60]}` is not in the table of datetime APIs (extend the table)")
         ck.ob("R4.timestamp-conversion-preserves-instant", fn_construct(fn), not badc, "; ".join(badc) or f"{len(calls)} call(s)")
+        if m == "to_unix_millis":
+            # exactness: dt.timestamp() is a binary float of seconds; scaling it and truncating loses a millisecond whenever the float lies just below
+            # the whole millisecond (whole-ms instants in 2038-2039, 2004, before 1970): the integer must be computed by integer / timedelta arithmetic
+            lossy = [n_ for n_ in ast.walk(fn.node) if isinstance(n_, ast.BinOp) and isinstance(n_.op, (ast.Mult, ast.Div))
+                     and any(isinstance(c_, ast.Call) and isinstance(c_.func, ast.Attribute) and c_.func.attr == "timestamp" for c_ in ast.walk(n_))]
+            rounded = [c_ for c_ in calls if isinstance(c_.func, ast.Name) and c_.func.id == "round"]
+            ck.ob("R4.millis-computed-exactly", fn_construct(fn), not lossy or bool(rounded),
+                  f"`{ast.unparse(lossy[0])[:60]}` scales the float timestamp() and truncates: a whole-millisecond instant can come out 1 ms early "
+                  "(and 1 ms earlier again after each further round trip)" if lossy else "")
         scale = {n.value for n in ast.walk(fn.node) if isinstance(n, ast.Constant) and isinstance(n.value, (int, float)) and n.value not in (0, 1)}
-        ck.ob("R4.timestamp-scale", fn_construct(fn), bool(scale & {1000, 1000.0, 0.001}), f"scaling constants {sorted(scale)}: the seconds<->milliseconds factor 1000 does not appear")
+        ms_unit = any(isinstance(c_, ast.Call) and any(k_.arg == "milliseconds" for k_ in c_.keywords) for c_ in ast.walk(fn.node))
+        ck.ob("R4.timestamp-scale", fn_construct(fn), bool(scale & {1000, 1000.0, 0.001}) or ms_unit, f"scaling constants {sorted(scale)}: the seconds<->milliseconds factor 1000 does not appear")
     # R5 decoding has no side effect on the wire form: a reader never stores into (any level of) the dictionary it was given - the same event /
     # history page is decoded again, compared with the encoder's output, or serialised again
     from sa.tables import input_mutations
@@ -221,6 +231,17 @@ def build() -> Check:
         muts = input_mutations(fi)
         ck.ob("R5.reader-does-not-mutate-its-input", fn_construct(fi), not muts, "; ".join(f"line {ln}: {why}" for ln, why in muts[:3]))
     ck.floor("reader_functions", n_readers, 15)
+    # R4 a millisecond value of 0 is a timestamp (the epoch): the JSON reader must test presence, not truthiness, before it converts
+    tests0 = []
+    for n_ in ast.walk(fj.node):
+        if isinstance(n_, (ast.If, ast.IfExp, ast.BoolOp)):
+            parts_ = n_.values if isinstance(n_, ast.BoolOp) else [n_.test]
+            for t_ in parts_:
+                if isinstance(t_, ast.NamedExpr) and isinstance(t_.value, ast.Call) and isinstance(t_.value.func, ast.Attribute) and t_.value.func.attr == "get" \
+                        and t_.value.args and isinstance(t_.value.args[0], ast.Constant) and "Timestamp" in str(t_.value.args[0].value):
+                    tests0.append(t_)
+    ck.ob("R4.json-reader-tests-presence", fn_construct(fj), not tests0,
+          "; ".join(f"line {t_.lineno}: `{ast.unparse(t_)}` is a truthiness test - a value of 0 ms is left undecoded (the field stays an int)" for t_ in tests0[:2]))
     return ck
 
 
